@@ -364,6 +364,10 @@ class Parser:
 
         name = fields.pop(0)
         parts = name.split('.')
+        if '' in parts[:-1]:
+            raise ValueError(
+                'Empty namespace in component name %s while parsing "%s"'
+                % (name, net))
 
         relname = parts[-1]
         if len(parts) > 1:
